@@ -13,7 +13,7 @@ import random
 
 import networkx as nx
 
-from ..common import Result, sut, digest
+from ..common import Result, sut, digest, tight_stack_call
 from ..exactpoly import percolation_counts, percolation_value
 
 ID = "C17"
@@ -25,7 +25,7 @@ ASSUMPTIONS = ["equality with the reference fixed point is asserted only at phi 
                "label format f'{k}-{vertices}-{edges}-{id}' as the mixin parses it; vertex ids are non-negative ints",
                "`_H_tau` residual check is auxiliary (hasattr-guarded)"]
 HEADLINE = ["networks", "queries", "fixed_point_equalities", "nontrivial_equalities", "slow_points_skipped", "order_dependent_points_skipped", "monotonicity_pairs", "bounds_checks",
-            "reuse_vs_fresh_checks", "residual_checks", "loopy_networks", "treelike_controls", "second_networks", "second_network_equalities", "relabelled_in_place_networks", "relabelled_network_equalities"]
+            "reuse_vs_fresh_checks", "residual_checks", "loopy_networks", "treelike_controls", "second_networks", "second_network_equalities", "relabelled_in_place_networks", "relabelled_network_equalities", "queries_aborted_by_injected_fault", "tight_stack_queries_completed"]
 REQUIRED = {"quick": {"fixed_point_equalities": 20, "nontrivial_equalities": 5, "monotonicity_pairs": 100, "reuse_vs_fresh_checks": 30, "loopy_networks": 5, "second_network_equalities": 10, "relabelled_network_equalities": 6},
             "thorough": {"fixed_point_equalities": 500, "nontrivial_equalities": 100, "monotonicity_pairs": 3000, "reuse_vs_fresh_checks": 800, "loopy_networks": 100, "second_network_equalities": 200, "relabelled_network_equalities": 100}}
 SHARD_TIMEOUT = {"quick": 900, "thorough": 10800}
@@ -227,6 +227,11 @@ def run_case(case):
             qs += [qs[0], qs[len(qs) // 2]]
             seen = {}
             for phi in qs:
+                if rng.random() < 0.1:
+                    # injected fault: a query aborted by RecursionError inside the library (tight stack), caught; the next query
+                    # on the same object must not see half-updated messages
+                    st, _ = tight_stack_call(lambda: reused.theoretical(rng.choice(grid)), rng.randint(4, 25))
+                    res.count("queries_aborted_by_injected_fault" if st == "aborted" else "tight_stack_queries_completed")
                 a = sut("theoretical", reused.theoretical, phi)
                 res.count("queries")
                 res.count("bounds_checks")
